@@ -511,4 +511,66 @@ theorem c01_hooks_preserve_errno :
     ∀ h ∈ Uft.Gen.HookShape.hooks, h.found = true ∧ h.savesErrnoFirst = true ∧ h.restoresBeforeReturn = true := by
   decide
 
+/-! ### ABI side conditions of the stubs themselves
+
+The machine model addresses memory by 8-byte words.  That is exact only if every
+memory operand of a stub is a multiple of 8 away from the (8-aligned) stack pointer:
+`c01_stub_offsets_word_aligned` checks it on the regenerated instruction lists (a
+`movdqu %xmm1, 84(%rsp)` that would partially overwrite a neighbouring slot is
+rejected here, not silently accepted).  And the SysV ABI wants the stack pointer
+16-byte aligned at every `call`: `c01_stub_calls_aligned`. -/
+
+def Instr.offsetsOk : Instr → Bool
+  | .subi n _ | .addi n _ => n % 8 == 0
+  | .store _ off _ | .load off _ _ | .lea off _ _ => off % 8 == 0
+  | .storex _ off _ | .loadx off _ _ => off % 8 == 0
+  | _ => true
+
+def allStubs : List (List Instr) :=
+  [mcount, fentry, dentry, mcount_return, dynamic_return, plthook_return, plt_hooker]
+
+theorem c01_stub_offsets_word_aligned : ∀ s ∈ allStubs, s.all Instr.offsetsOk = true := by
+  decide
+
+theorem align16_mod (x : Nat) : align16 x % 16 = 0 := by unfold align16; omega
+
+/-- At the `call` of every stub the stack pointer is 16-byte aligned, whatever its value at the
+    stub's entry (each stub aligns it itself before pushing an even number of words). -/
+theorem c01_stub_calls_aligned (env : Env) (m : M) (hsp : m.gpr .rsp ≥ 4096) :
+    (exec env (pre mcount) m).gpr .rsp % 16 = 0 ∧
+    (exec env (pre fentry) m).gpr .rsp % 16 = 0 ∧
+    (exec env (pre dentry) m).gpr .rsp % 16 = 0 ∧
+    (exec env (pre plt_hooker) m).gpr .rsp % 16 = 0 ∧
+    (exec env (pre mcount_return) m).gpr .rsp % 16 = 0 ∧
+    (exec env (pre dynamic_return) m).gpr .rsp % 16 = 0 ∧
+    (exec env (pre plthook_return) m).gpr .rsp % 16 = 0 := by
+  have b48 := align16_bounds (m.gpr .rsp - 48)
+  have a48 := align16_mod (m.gpr .rsp - 48)
+  have b112 := align16_bounds (m.gpr .rsp - 112)
+  have a112 := align16_mod (m.gpr .rsp - 112)
+  have b72 := align16_bounds (m.gpr .rsp - 72)
+  have a72 := align16_mod (m.gpr .rsp - 72)
+  refine ⟨?_, ?_, ?_, ?_, ?_, ?_, ?_⟩
+  · have : (exec env (pre mcount) m).gpr .rsp = align16 (m.gpr .rsp - 48) - 32 := by
+      simp (disch := omega) [pre, mcount, exec_cons, step]; omega
+    rw [this]; omega
+  · have : (exec env (pre fentry) m).gpr .rsp = align16 (m.gpr .rsp - 48) - 32 := by
+      simp (disch := omega) [pre, fentry, exec_cons, step]; omega
+    rw [this]; omega
+  · have : (exec env (pre dentry) m).gpr .rsp = align16 (m.gpr .rsp - 48) - 32 := by
+      simp (disch := omega) [pre, dentry, exec_cons, step]; omega
+    rw [this]; omega
+  · have : (exec env (pre plt_hooker) m).gpr .rsp = align16 (m.gpr .rsp - 48) - 16 := by
+      simp (disch := omega) [pre, plt_hooker, exec_cons, step]; omega
+    rw [this]; omega
+  · have : (exec env (pre mcount_return) m).gpr .rsp = align16 (m.gpr .rsp - 112) - 16 := by
+      simp (disch := omega) [pre, mcount_return, exec_cons, step]
+    rw [this]; omega
+  · have : (exec env (pre dynamic_return) m).gpr .rsp = align16 (m.gpr .rsp - 112) - 16 := by
+      simp (disch := omega) [pre, dynamic_return, exec_cons, step]
+    rw [this]; omega
+  · have : (exec env (pre plthook_return) m).gpr .rsp = align16 (m.gpr .rsp - 72) - 16 := by
+      simp (disch := omega) [pre, plthook_return, exec_cons, step]
+    rw [this]; omega
+
 end Uft.C01
